@@ -219,6 +219,35 @@ int main(int argc, char ** argv)
           if (d < 7 || d > 2000) fail("event|draws", fmt("%zu deviates for one event", d));
           if (sample.empty()) sample = "{\"tape\":" + T.prefix_json(std::min<size_t>(d, 8)) + ",\"e1\":" + jnum(e1) + ",\"e2\":" + jnum(e2) + ",\"cos12\":" + jnum(c12) + ",\"event\":" + event_json(ev) + "}";
         }
+        // the same dataset on ONE long-lived sampler object that served every earlier dataset of this process (reset in between):
+        // identical samples, bit for bit
+        {
+          static dbd_gA reused;
+          std::string exc;
+          try {
+            if (reused.is_initialized()) reused.reset();
+            reused.set_nuclide(nuc);
+            reused.set_process(proc_of(proc));
+            reused.set_shooting(dbd_gA::SHOOTING_INVERSE_TRANSFORM_METHOD);
+            reused.initialize();
+            Rng r2(seed, hash_str(lab) + 5);
+            for (int k = 0; k < 400 && exc.empty(); k++) {
+              Fixed fa, fb;
+              double u1 = r2.uniform(), u2 = r2.uniform();
+              fa.v = {u1, u2};
+              fb.v = {u1, u2};
+              double a1 = -1, a2 = -1, b1 = -1, b2 = -1;
+              g.shoot_e1_e2(fa, a1, a2);
+              reused.shoot_e1_e2(fb, b1, b2);
+              samples++;
+              if (!same_bits(a1, b1) || !same_bits(a2, b2))
+                fail("sample|reused-sampler-differs", fmt("u=(%.17g,%.17g): fresh sampler (%.17g,%.17g), sampler object used for other datasets before (%.17g,%.17g)", u1, u2, a1, a2, b1, b2));
+            }
+          } catch (std::exception & x) {
+            exc = x.what();
+            fail("initialize|reused-sampler", std::string("a sampler object used before raises where a fresh one does not: ") + exc);
+          }
+        }
         g.reset();
       }
       // ---- (e) rejection method
